@@ -99,3 +99,4 @@ open Csproto
 #print axioms Csproto.Bridge.PackedEncFuncs.EncodePackedSInt64_refines
 #print axioms Csproto.Bridge.PackedEncFuncs.EncodePackedSInt32_refines
 #print axioms Csproto.C01.Source.source_roundtrip_packed_uint64
+#print axioms Csproto.C01.Source.source_roundtrip_packed_int32
